@@ -158,6 +158,32 @@ def run_proof(built, proof, workdir, extra_defs=(), trace=False):
            'mode': 'unbounded' if proof.get('loops', 'none') in ('contracts', 'none') else 'bounded'}
     mode = proof.get('loops', 'none')
     ctext = open(built['cfile']).read()
+    aborted = getattr(built['L'], 'aborted', {})
+    if aborted:
+        # does this proof need the body of a function that could not be lowered?  (its own function, or a callee that is not replaced by
+        # its contract -- transitively, or named in a hand-written harness)
+        repl = set(proof.get('replace', []))
+        need, todo = set(), [proof['enforce']] if proof.get('enforce') else []
+        for a in aborted:
+            if proof.get('harness') and re.search(r'\b%s\s*\(' % re.escape(a), proof['harness']) and a not in repl:
+                need.add(a)
+            if proof.get('harness'):
+                todo += [f for f in built['L'].calls if re.search(r'\b%s\s*\(' % re.escape(f), proof['harness'])]
+        seen = set()
+        while todo:
+            f = todo.pop()
+            if f in seen:
+                continue
+            seen.add(f)
+            if f in aborted and (f == proof.get('enforce') or f not in repl):
+                need.add(f)
+            if f in repl and f != proof.get('enforce'):
+                continue
+            todo += list(built['L'].calls.get(f, ()))
+        if need:
+            f = sorted(need)[0]
+            res['error'] = 'lowering abort in %s (needed by this proof): %s' % (f, aborted[f])
+            return res
 
     def compile_instrument(tag, more_defs):
         """goto-cc + goto-instrument --dfcc; returns (instrumented binary, None) or (None, error text)"""
